@@ -295,6 +295,15 @@ def model_expr(case):
 
 
 def parse_model(zs, n):
+    """-> (flag, x, events); a trace that cannot be decoded (e.g. the model ran past the logged oracle values and produced
+    vectors of another length) is returned as a single ('undecodable', ...) event, never as an exception"""
+    try:
+        return _parse_model(zs, n)
+    except (KeyError, IndexError, ValueError, TypeError) as ex:
+        return None, [], [('undecodable', None, repr(ex))]
+
+
+def _parse_model(zs, n):
     flag = bool(zs[0])
     x = C.dec_floats(zs[1:1 + 2 * n])
     i = 1 + 2 * n
